@@ -104,8 +104,13 @@ impl ToTokens for FromMetaImpl<'_> {
             Data::Enum(ref variants) => {
                 let unit_arms = variants.iter().map(Variant::as_unit_match_arm);
 
-                let unknown_variant_err = if !variants.is_empty() {
-                    let names = variants.iter().map(Variant::as_name);
+                // A skipped variant can never be produced, so it must not be suggested either.
+                let mut names = variants
+                    .iter()
+                    .filter(|v| !v.skip)
+                    .map(Variant::as_name)
+                    .peekable();
+                let unknown_variant_err = if names.peek().is_some() {
                     quote! {
                         unknown_field_with_alts(__other, &[#(#names),*])
                     }
